@@ -2,7 +2,9 @@ package ledger
 
 import (
 	"bytes"
+	"errors"
 	"fmt"
+	"github.com/nspcc-dev/neo-go/pkg/core"
 	"sort"
 
 	"github.com/nspcc-dev/neo-go/pkg/config"
@@ -357,7 +359,18 @@ func (sr *syncRun) checkState(n *Node, when string) {
 func (sr *syncRun) ordinary(from uint32) {
 	r := sr.r
 	for x := from; x <= sr.L; x++ {
-		if err := sr.T.AddBlockBytes(r.raw[x]); err != nil {
+		if r.tape.Chance(1, 6) {
+			// the block arrives from two peers at once (two block queues feed a synchronising node: the state
+			// synchronisation module's and the ledger's)
+			e1, e2 := r.addBlockFromTwoSources(sr.T, r.raw[x])
+			if r.fail != nil {
+				return
+			}
+			if !(e1 == nil && errors.Is(e2, core.ErrAlreadyExists)) && !(e2 == nil && errors.Is(e1, core.ErrAlreadyExists)) {
+				r.violate(sim.Violatef("duplicate-block-not-refused", "", "after state synchronisation at %d the node was given block %d by two callers at once; they were answered %v and %v (expected: one applies it, the other is told it exists already)", sr.P, x, e1, e2))
+				return
+			}
+		} else if err := sr.T.AddBlockBytes(r.raw[x]); err != nil {
 			r.violate(sim.Violatef("sync-lockstep-rejected", "", "after state synchronisation at %d the node rejects block %d: %v", sr.P, x, err))
 			return
 		}
